@@ -23,6 +23,8 @@ ASSUMPTIONS = ['sets (hash order) are not generated; containers with an unreadab
 def corpus():
     cyc = [{'k': 'dict', 'od': False, 'items': [['self', {'ref': 0}]]}]
     two = [{'k': 'dict', 'od': False, 'items': [['a', {'ref': 1}], ['b', {'ref': 1}]]}, {'k': 'list', 'items': [1, {'ref': 0}, 'x']}]
+    inner = [{'k': 'dict', 'od': False, 'items': [['a', {'ref': 1}], ['z', 0]]},
+             {'k': 'dict', 'od': False, 'items': [['x', 1], ['self', {'ref': 1}], ['l', {'ref': 2}]]}, {'k': 'list', 'items': [{'ref': 1}, {'ref': 2}, 7]}]
     return [
         {'cells': cyc, 'target': {'ref': 0}, 'steps': [['X']], 'spelling': 'text'},
         {'cells': cyc, 'target': {'ref': 0}, 'steps': [['X'], ['P', 'self']], 'spelling': 'text'},
@@ -32,6 +34,11 @@ def corpus():
         {'cells': two, 'target': {'ref': 0}, 'steps': [['X'], ['P', '0']], 'spelling': 'text'},
         {'cells': two, 'target': 'hello', 'steps': [['x']], 'spelling': 'text'},
         {'cells': two, 'target': 5, 'steps': [['X']], 'spelling': 'text'},
+        # ** started BELOW the root on a container that reaches itself: the start value is the one that counts as seen
+        {'cells': inner, 'target': {'ref': 0}, 'steps': [['P', 'a'], ['X']], 'spelling': 'text'},
+        {'cells': inner, 'target': {'ref': 0}, 'steps': [['P', 'a'], ['X']], 'spelling': 'path'},
+        {'cells': inner, 'target': {'ref': 0}, 'steps': [['x'], ['X']], 'spelling': 'text'},
+        {'cells': inner, 'target': {'ref': 0}, 'steps': [['P', 'a'], ['P', 'l'], ['X'], ['P', 'x']], 'spelling': 'path'},
     ]
 
 
